@@ -170,3 +170,15 @@ Proof.
           | replace (bytes_eqb (c :: t) []) with false by reflexivity; cbn [negb]; destruct noColor;
             [ rewrite gen_pc_append_comma | rewrite gen_pc_append_byte ]; reflexivity ] ].
 Qed.
+
+(* ---- Entry.printSeverity ---- *)
+Require Verif.Gen.LevelNames.
+Lemma gen_print_severity fa fw fr tags l2s width pc noColor json lvl clr bg buf :
+  Layout.print_severity fa fw fr tags l2s width pc noColor json lvl clr bg buf =
+  print_severity_ref fa fw fr (LevelNames.level_string l2s lvl) (LevelNames.short_tag tags l2s lvl width) noColor json clr bg buf.
+Proof.
+  first [ reflexivity
+        | unfold Layout.print_severity, print_severity_ref; destruct noColor;
+          [ rewrite gen_pc_append_comma; reflexivity
+          | destruct (LevelNames.short_tag tags l2s lvl width) as [t|]; [ rewrite gen_pc_append_byte | ]; reflexivity ] ].
+Qed.
